@@ -86,9 +86,9 @@ Definition meta_preprocessor (l : list str) : mdict * list str :=
   end.
 
 (* ---- FortranBase.read_metadata, the part before meta.update ----
-   [fields] = the EntitySettings field names. A one-line comment that contains ':' and whose
-   text before the first ':' (stripped, lower-cased) is not a field name is protected by an
-   empty first line. *)
+   [fields] = the EntitySettings field names. A one-line comment (one line followed by any
+   number of blank lines, as repaired) that contains ':' and whose text before the first ':'
+   (stripped, lower-cased) is not a field name is protected by an empty first line. *)
 Fixpoint before_colon (x : str) : option str :=
   match x with
   | [] => None
@@ -98,12 +98,15 @@ Fixpoint before_colon (x : str) : option str :=
 
 Definition read_metadata_pre (fields : list str) (l : list str) : list str :=
   match l with
-  | [x] =>
-    match before_colon x with
-    | Some p => if str_in (lower (strip p)) fields then l else [] :: l
-    | None => l
-    end
-  | _ => l
+  | x :: rest =>
+    (* nlines == 1: every line after the first is blank (trailing empty doc lines are ignored) *)
+    if forallb is_blank rest then
+      match before_colon x with
+      | Some p => if str_in (lower (strip p)) fields then l else [] :: l
+      | None => l
+      end
+    else l
+  | [] => l
   end.
 
 Definition read_metadata (fields : list str) (l : list str) : mdict * list str :=
